@@ -314,6 +314,9 @@ def validate_trace(module, cfg, events, workers=1, timeout=900, dfs=False, env=N
     if "overrides.Json.ndDeserialize" in r.out and "produced the following error" in r.out:
         raise MachineryError("trace for %s is not readable by TLC's Json module:\n%s" % (module, r.out[-1500:]))
     accepted = r.ok
+    if not accepted and not r.postcond_failed and not r.violated:
+        # neither accepted nor rejected by the acceptance condition: TLC ran out of time or failed -- never a verdict on the code
+        raise MachineryError("trace spec %s gave no verdict (rc=%s, %d events):\n%s" % (module, r.rc, len(events), r.out[-1500:]))
     matched = max(0, r.diameter - 1)
     return accepted, matched, r
 
